@@ -166,6 +166,7 @@ structure LogSt where
   cfg : CleanCfg := {}
   l : CLog := CLog.init 1024 false
   sub : Option Subscribe.Sub := none
+  readers : List (String × Int × Bool) := []     -- live readers: id, next offset, uncommitted?
   deriving Inhabited
 
 def showRecBrief (r : Rec) : String :=
@@ -192,6 +193,14 @@ def parseStop (s : String) : Option Subscribe.StopPos :=
   | ["t", n] => n.toInt?.map .timestamp
   | _ => none
 
+/-- Split a token list at "+" tokens. -/
+def splitGroups : List String → List (List String)
+  | [] => [[]]
+  | t :: ts =>
+    match splitGroups ts with
+    | [] => [[t]]
+    | g :: gs => if t = "+" then [] :: g :: gs else (t :: g) :: gs
+
 def logStep (st : LogSt) (toks : List String) : LogSt × String :=
   match toks with
   | "begin" :: m :: occ :: kvs =>
@@ -212,6 +221,53 @@ def logStep (st : LogSt) (toks : List String) : LogSt × String :=
       let (d, e, sub') := Subscribe.drain st.l sub
       ({ st with sub := some sub' }, s!"ok {" ".intercalate (d.map showRecBrief)} | {showEnding e}")
   | ["dump"] => (st, "ok " ++ " ".intercalate (st.l.abs.map showRecBrief))
+  | ["ropen", id, o, mode] =>
+    match o.toInt? with
+    | some o =>
+      let u := mode = "u"
+      let r := if u then st.l.readUncommitted o else st.l.readCommitted o
+      -- a committed reader created beyond the HW (or on an empty log) parks and resumes at the
+      -- message after the HW it saw (newReaderCommitted)
+      let o' := if !u && (o > st.l.hw || st.l.oldest = -1) then st.l.hw + 1 else o
+      match r with
+      | .ok _ => ({ st with readers := (id, o', u) :: st.readers.filter (·.1 ≠ id) }, "ok")
+      | _ => (st, "err")
+    | none => (st, "bad-op")
+  | ["rnext", id, n] =>
+    match st.readers.find? (·.1 = id), n.toNat? with
+    | some (_, next, u), some n =>
+      -- a live reader continues behind what it delivered; if its segment was replaced or
+      -- removed meanwhile it re-initialises at that offset
+      if next > (if u then st.l.newest else st.l.hw) then (st, "ok ") else
+      let r := if u then st.l.readUncommitted next else st.l.readCommitted next
+      match r with
+      | .ok rs =>
+        let d := rs.take n
+        let next' := match d.getLast? with | some r => r.offset + 1 | none => next
+        ({ st with readers := (id, next', u) :: st.readers.filter (·.1 ≠ id) }, "ok " ++ showRecs d)
+      | _ => (st, "err")
+    | _, _ => (st, "bad-op")
+  | "cleanmid" :: ttl :: e :: t :: rest =>
+    match ttl.toInt?, e.toNat?, t.toInt? with
+    | some ttl, some e, some t =>
+      -- appends (groups separated by "+") happen right after Clean snapshotted the segment list
+      let groups := (splitGroups rest).filter (fun g => !g.isEmpty)
+      let n := st.l.segs.length
+      let step := fun (acc : Option (CLog × Int)) (g : List String) =>
+        match acc with
+        | none => none
+        | some (l, ts) =>
+          match mapIdxM (parseMsg ts e) 0 g with
+          | some ms => match l.append ms with
+            | .ok (l', _) => some (l', ts + 10)
+            | _ => none
+          | none => none
+      match groups.foldl step (some (st.l, t)) with
+      | some (l1, _) =>
+        let l' := Compact.cleanLogDuring st.cfg.lim ttl st.cfg.compact n l1
+        ({ st with l := l' }, "ok | " ++ showState l')
+      | none => (st, "bad-op")
+    | _, _, _ => (st, "bad-op")
   | ["tsearliest", t] =>
     match t.toInt? with
     | some t => (st, match Subscribe.earliestAfterTs st.l t with | .ok o => s!"ok {o}" | .err e => "err " ++ e | .panic => "panic")
@@ -224,6 +280,9 @@ def logStep (st : LogSt) (toks : List String) : LogSt × String :=
     match o.toInt? with
     | some o => (st, match Subscribe.reverseRecs st.l o with | .ok rs => "ok " ++ " ".intercalate (rs.map showRecBrief) | .err e => "err " ++ e | .panic => "panic")
     | none => (st, "bad-op")
+  | ["reopen"] =>
+    -- closing the log ends every reader attached to it
+    let (l, out) := logStep' st.cfg st.l toks; ({ st with l := l, readers := [] }, out)
   | _ => let (l, out) := logStep' st.cfg st.l toks; ({ st with l := l }, out)
 
 end Liftbridge.Driver
